@@ -91,8 +91,9 @@ def a2(ctx, rep):
     ok = bool(first) and isinstance(vt.strip(first[0]['v']), dict) and vt.strip(first[0]['v']).get('v') is True
     before = [c for c in f['calls'] if first and c.get('line', 0) < first[0]['line'] and c.get('f') not in ('is_empty',)]
     rep.check(ok and not before, 'A2', 'empty-list-accepts', 'empty target list ⇒ accept, before any attribute is inspected', 'accept_target_os no longer returns true first thing when the target list is empty: without --target-os items guarded by cfg(target_os) would be filtered', site)
-    oc = ctx.fn('override_configuration', file='cli/src/main.rs')
-    asg = [a for a in oc['assigns'] if a.get('text', '').replace(' ', '') == 'config.target_os']
+    from .. import wiring
+    oc, cfg_p, _opts_p = wiring.override_fn(ctx)
+    asg = [a for a in oc['assigns'] if a.get('text', '').replace(' ', '') == f'{cfg_p}.target_os' and a.get('via') != 'clone_from']
     ok = len(asg) == 1 and 'options.target_os' in vt.show(asg[0]['value']) and 'unwrap_or_default' in json.dumps(asg[0]['value']) and not [fr for fr in asg[0]['guard'] if fr.get('k') == 'if']
     rep.check(ok, 'A2', 'cli:target-list-from-option', 'config.target_os = --target-os or empty', f"override_configuration sets config.target_os from `{vt.show(asg[0]['value'])[:80] if asg else '?'}`", {'file': oc['file'], 'line': oc['line']})
     gt = ctx.fn('generate_types', file='cli/src/main.rs')
